@@ -229,7 +229,7 @@ def run(tier):
         obs, missing = [], ""
         for f in fl2:
             ti = first_tok.get(f["item"])
-            if ti is None:
+            if ti is None or f["kind"] == "objlist-item-not-object":      # the replaced item carries no position any more
                 continue
             named = [m for m in msgs if m.get("message", "").lower().endswith(" " + f["name"])]
             for m in named[:1] if len(named) > 1 and len([g for g in fl2 if g["name"] == f["name"]]) > 1 else named:
